@@ -8,27 +8,34 @@ import hashlib
 import json
 
 
-def is_json(v):
-    """True iff v is a plain JSON value (dict keys must be str)."""
+MAX_DEPTH = 120  # deeper than any generated document: a value nested further is cyclic (not a JSON value)
+
+
+def is_json(v, depth=0):
+    """True iff v is a plain JSON value (dict keys must be str); cyclic structures are not."""
     if v is None or isinstance(v, (bool, str)):
         return True
     if isinstance(v, (int, float)):
         return True
+    if depth > MAX_DEPTH:
+        return False
     if isinstance(v, list):
         for x in v:
-            if not is_json(x):
+            if not is_json(x, depth + 1):
                 return False
         return True
     if isinstance(v, dict):
         for k, x in v.items():
-            if not isinstance(k, str) or not is_json(x):
+            if not isinstance(k, str) or not is_json(x, depth + 1):
                 return False
         return True
     return False
 
 
-def jeq(a, b):
+def jeq(a, b, depth=0):
     """Typed JSON equality."""
+    if depth > MAX_DEPTH:
+        return False
     if a is None or b is None:
         return a is None and b is None
     ta, tb = isinstance(a, bool), isinstance(b, bool)
@@ -43,7 +50,7 @@ def jeq(a, b):
         if not (isinstance(a, list) and isinstance(b, list)) or len(a) != len(b):
             return False
         for x, y in zip(a, b):
-            if not jeq(x, y):
+            if not jeq(x, y, depth + 1):
                 return False
         return True
     if isinstance(a, dict) and isinstance(b, dict):
@@ -52,7 +59,7 @@ def jeq(a, b):
         for k, x in a.items():
             if not isinstance(k, str) or k not in b:
                 return False
-            if not jeq(x, b[k]):
+            if not jeq(x, b[k], depth + 1):
                 return False
         for k in b:
             if not isinstance(k, str):
@@ -82,12 +89,14 @@ def jeq_ordered(a, b):
     return jeq(a, b)
 
 
-def ckey(v):
+def ckey(v, depth=0):
     """Canonical, typed, hashable key of a JSON-ish value (objects unordered).
 
     Non-JSON values (tuples, int dict keys, other objects) get distinct tags so
     they never collide with JSON values.
     """
+    if depth > MAX_DEPTH:
+        return ("cycle",)
     if v is None:
         return ("n",)
     if isinstance(v, bool):
@@ -102,13 +111,13 @@ def ckey(v):
     if isinstance(v, str):
         return ("s", v)
     if isinstance(v, list):
-        return ("a",) + tuple(ckey(x) for x in v)
+        return ("a",) + tuple(ckey(x, depth + 1) for x in v)
     if isinstance(v, tuple):
-        return ("t",) + tuple(ckey(x) for x in v)
+        return ("t",) + tuple(ckey(x, depth + 1) for x in v)
     if isinstance(v, dict):
         items = []
         for k, x in v.items():
-            items.append((("k", k) if isinstance(k, str) else ("K", repr(k)), ckey(x)))
+            items.append((("k", k) if isinstance(k, str) else ("K", repr(k)), ckey(x, depth + 1)))
         return ("o",) + tuple(sorted(items, key=repr))
     return ("x", type(v).__name__, repr(v))
 
@@ -141,16 +150,18 @@ def jdump(v):
         return repr(v)
 
 
-def jsonable(v):
+def jsonable(v, depth=0):
     """Convert a possibly non-JSON Python value into something json.dump accepts."""
     if v is None or isinstance(v, (bool, int, float, str)):
         return v
+    if depth > 12:
+        return "<deeper: cyclic or too deep to print>"
     if isinstance(v, (list, tuple)):
-        return [jsonable(x) for x in v]
+        return [jsonable(x, depth + 1) for x in v]
     if isinstance(v, dict):
         out = {}
         for k, x in v.items():
-            out[k if isinstance(k, str) else "<non-str key %r>" % (k,)] = jsonable(x)
+            out[k if isinstance(k, str) else "<non-str key %r>" % (k,)] = jsonable(x, depth + 1)
         return out
     return "<%s %r>" % (type(v).__name__, v)
 
